@@ -63,6 +63,9 @@ type Worker struct {
 	lastShard  []int
 	capped     bool
 	progF      *os.File
+	curIdx     int64
+	curPrefix  []int
+	curClass   string
 	lastCkpt   time.Time
 }
 
@@ -80,16 +83,26 @@ func (w *Worker) addViolation(c *Ctx, class, msg string) {
 	})
 }
 
+func (w *Worker) progressClass(class string) {
+	w.curClass = class
+	w.progress(w.curIdx, w.curPrefix)
+}
+
 func (w *Worker) progress(idx int64, prefix []int) {
 	if w.progF == nil {
 		return
 	}
+	if idx != w.curIdx {
+		w.curClass = ""
+	}
+	w.curIdx, w.curPrefix = idx, prefix
 	b, _ := json.Marshal(struct {
-		Index  int64 `json:"index"`
-		Prefix []int `json:"prefix"`
-	}{idx, prefix})
+		Index  int64  `json:"index"`
+		Prefix []int  `json:"prefix"`
+		Class  string `json:"class,omitempty"`
+	}{idx, prefix, w.curClass})
 	b = append(b, '\n')
-	for len(b) < 256 {
+	for len(b) < 512 {
 		b = append(b, ' ')
 	}
 	w.progF.WriteAt(b, 0)
